@@ -315,7 +315,7 @@ func c04RunCells(c *lib.Ctx, lines []string) []string {
 					current = -1
 					start = i + 1
 				}
-			case <-time.After(8 * time.Second):
+			case <-time.After(15 * time.Second):
 				why = "timeout"
 				_ = cmd.Process.Kill()
 				break loop
@@ -465,6 +465,22 @@ func c04Builtins(c *lib.Ctx) {
 		}
 		_ = i
 	}
+	// a built-in with a cell that could not be run to completion (timeout, crash) is not judged at
+	// all: a partial verdict would have another signature than the complete one
+	incomplete := map[int]bool{}
+	for k, r := range refs {
+		switch res[k] {
+		case "timeout", "crash", "skipped", "", "missing":
+			incomplete[r.b] = true
+		}
+	}
+	notJudgedFns := []string{}
+	for i := range incomplete {
+		notJudgedFns = append(notJudgedFns, bs[i].pkg+":"+bs[i].name)
+		delete(verdicts, i)
+	}
+	sort.Strings(notJudgedFns)
+	c.Ev.Coverage["builtin_not_judged_incomplete"] = notJudgedFns
 	idxs := make([]int, 0, len(verdicts))
 	for i := range verdicts {
 		idxs = append(idxs, i)
